@@ -110,11 +110,37 @@ def gen(ch, tier):
             ann.append([nm, units])
         case["reference"] = {"annotators": ann, "family": "regular", "labelset": "words"}
         case["gt"] = sorted(ch.sample(names, ch.randint(2, n_annot))) if n_annot >= 3 and ch.coin(0.5) else None
+    if ch.coin(0.3):
+        pc = ch.sub("prior")
+        if pc.coin(0.5):
+            case["prior"] = {"kind": "custom", "annotators": ["Pia", "Quin", "Rolf"],
+                             "params": {"avg_n": pc.uniform(2, 20), "std_n": pc.uniform(0, 3), "avg_gap": pc.uniform(20, 60),
+                                        "std_gap": pc.uniform(0, 5), "avg_dur": pc.uniform(10, 50), "std_dur": pc.uniform(0, 5),
+                                        "categories": ["x", "y"], "weights": [0.9, 0.1]}}
+        else:
+            case["prior"] = {"kind": "measured",
+                             "reference": world.gen_continuum(pc, max_annot=3, max_units=6, labelset="alpha",
+                                                              allow_empty_annot=False, min_total_units=2)}
     return case
 
 
 def build_sampler(case):
     s = pa.StatisticalContinuumSampler()
+    if case.get("prior"):
+        # history: the same sampler object served another parameter set / reference before
+        pr = case["prior"]
+        np.random.seed(case["np_seed"] ^ 0x5A5A)
+        if pr["kind"] == "custom":
+            p = pr["params"]
+            s.init_sampling_custom(pr["annotators"], p["avg_n"], p["std_n"], p["avg_gap"], p["std_gap"], p["avg_dur"],
+                                   p["std_dur"], p["categories"], p["weights"])
+        else:
+            s.init_sampling(world.build_continuum(pr["reference"]))
+        for _ in range(2):
+            try:
+                s.sample_from_continuum
+            except Exception:  # noqa: BLE001
+                pass
     if case["kind"] == "measured":
         ref = world.build_continuum(case["reference"])
         s.init_sampling(ref, case.get("gt"))
@@ -219,6 +245,10 @@ def shrink_candidates(case, violation):
     if case["adv_rate"] > 0 and not violation.get("sig", {}).get("adversarial"):
         c = copy.deepcopy(case)
         c["adv_rate"] = 0.0
+        yield c
+    if case.get("prior"):
+        c = copy.deepcopy(case)
+        c["prior"] = None
         yield c
     if len(case["annotators"]) > 2 and case["kind"] != "measured":
         c = copy.deepcopy(case)
